@@ -243,6 +243,7 @@ class Gen:
 
 
 ADVERSARIAL_STREAMS = [
+    "- |2-\n\n  a\n", "k: |2\n\n  a\n  b\n", "- \"\\n\\nx\\ny\"\n",
     # header comments indented with TAB / mixed blanks, white-space-only lines, CRLF
     "\t# x\na: 1\n", " \t # x\na: 1\n", "\t\n# c\na: 1\n", "# c\r\na: 1\r\n", "\t# x\n\n \t# y\n---\na: 1\n", "# c\r\n\r\n# d\r\na: 1\n", " \r\n#c\na: 1\n",
     "\t\t# two tabs\nk: v\n", "  \t# x\n---\n\t# y\n- 1\n", " \n\t\n  # c\na: 1\n", "\f# ff\na: 1\n", "\r# cr\na: 1\n",
@@ -371,6 +372,8 @@ def finding_of_data(d):
     _, a, b = d
     if a and b and a[0] == "s" and b[0] == "s" and a[1] == NULLT and a[2] == "" and b[1] == STRT and b[2] == "":
         return "flow-null-becomes-empty-string"
+    if a and b and a[0] == "s" and b[0] == "s" and a[1] == b[1] and a[2][:1] in ("\n", "\u2028", "\u2029") and "\n" in a[2] and b[2] == a[2][1:]:
+        return "literal-leading-line-break-lost"
     if a and b and a[0] in ("q", "m") and a[1] == NULLT and b[0] == "s" and b[1] == NULLT:
         return "null-tagged-collection-dropped"
     return None
@@ -529,6 +532,11 @@ def run_pair(src, extra=()):
         return rc, out, err, None, b"", b""
     rc2, out2, err2 = vlib.run_yq(list(extra) + ["."], stdin=out)
     return rc, out, err, rc2, out2, err2
+
+
+def strip_indent_indicator(b):
+    """block scalar headers without their explicit indentation indicator (|2- -> |-)"""
+    return re.sub(rb"([|>])[1-9]([-+]?)(?=\n)", rb"\1\2", b)
 
 
 def strip_trailing_commas(b):
@@ -783,6 +791,10 @@ def run(chk):
                         chk.known_finding("flow-trailing-comma-before-foot-comment", e.decode("utf-8", "replace")[:80])
                         h_reread_fail += 1
                         continue
+                    if strip_indent_indicator(out2) == strip_indent_indicator(e) and lead2 == b"" and chk.is_known("literal-leading-line-break-lost"):
+                        chk.known_finding("literal-leading-line-break-lost", e.decode("utf-8", "replace")[:80])
+                        h_reread_fail += 1
+                        continue
                     h_reread_fail += 1
                     chk.extra.setdefault("H_reread_failures", []).append({"doc": e.decode("utf-8", "replace")[:200], "again": out2.decode("utf-8", "replace")[:200], "lead": lead2.decode("utf-8", "replace")[:50]})
                     if h_reread_fail <= 3 and not short_tail_signature(e):
@@ -832,6 +844,9 @@ def run(chk):
         if rc == 0 and o1 != j:
             if strip_trailing_commas(o1) == strip_trailing_commas(j) and chk.is_known("flow-trailing-comma-before-foot-comment"):
                 chk.known_finding("flow-trailing-comma-before-foot-comment", j.decode("utf-8", "replace")[:80])
+            elif strip_indent_indicator(o1) == strip_indent_indicator(j) and chk.is_known("literal-leading-line-break-lost"):
+                # the emitter wrote an indentation indicator for a leading blank line it then dropped; the next pass drops the indicator too
+                chk.known_finding("literal-leading-line-break-lost", j.decode("utf-8", "replace")[:80])
             else:
                 chk.extra.setdefault("H_reread_stream_failures", []).append({"stream": j.decode("utf-8", "replace")[:300], "again": o1.decode("utf-8", "replace")[:300]})
                 if len(chk.extra["H_reread_stream_failures"]) <= 3:
